@@ -12,6 +12,11 @@ Spaces (DESIGN.md section 4, C16):
   dm        : density-matrix alphabet (|a><a|, |a>+|b>, |a>+i|b>, 1/d, I/d +- r G_i, atoms): path rho->b->rho->b,
               with_rho0, norm, and squared distance on ALL ordered pairs; Bloch-vector alphabet (0, +-r e_i, atoms):
               path b->rho->b->rho.
+  additions : int64 inputs (0/1-valued unit alphabets E_ab / e_i / |a><a| / 0,e_i; all six functions, both backends); batch rank 3
+              (2,1,l); all_gellmann_matrix argument spellings (np.int64 / float d, np.int64 tensor_n, with_I = 0/1/np.bool_) on a
+              cold cache, each followed by the plain call; d = 1 (gellmann_matrix(0,0,1), m<->v, dm functions on [[1]]); band next
+              to the maximally mixed state 1/d +- t G_i, t = 1e-9..1e-3: Bloch vector, norm (absolute tolerance) and squared
+              distance on all ordered pairs (tolerance relative to the squared Bloch distance).
 Oracle: textbook Gell-Mann matrices built here (ref_gellmann), coefficients Tr(G_i A)/2, synthesis sum_i c_i G_i,
 all in complex128 on the exactly-cast input.
 
@@ -40,7 +45,12 @@ RULE = ('mode B (basis alphabets): case = (function family, d, backend, input dt
         'state = one (configuration, batch shape, layout, alphabet element) point or one basis element (the complete Gram matrix is checked per basis, entries counted separately); transition = one '
         'numqi call whose complete output was compared with the explicit basis expansion; trace = one element followed through a whole '
         'conversion path (m->v->m->v, v->m->v->m, rho->b->rho->b, b->rho->b->rho) with every step compared; non-trivial = observed '
-        'output has at least two non-zero entries (not the zero/trivial answer)')
+        'output has at least two non-zero entries (not the zero/trivial answer). Further case kinds: the same three families with int64 inputs '
+        '(0/1-valued unit alphabets, no atoms); d=1 (single point of the basis, m<->v paths, dm functions on [[1]]); inside a basis case '
+        'every numeric spelling of (d, tensor_n, with_I) is called on a cold cache and followed by the plain call, both compared with the '
+        'reference and bit-wise with each other; inside a dm case the band 1/d, 1/d +- t G_i (t in 1e-9,1e-7,1e-5,1e-3; one axis per '
+        'coefficient group, every axis for d<=4 in the thorough tier) is pushed through Bloch vector, norm and the squared distance of all '
+        'ordered pairs with a tolerance relative to the squared Bloch distance')
 ASSUMPTIONS = [
     'reference = textbook generalized Gell-Mann matrices (E_ab+E_ba, -i(E_ab-E_ba), sqrt(2/(l(l+1))) diag(1..1,-l,0..), sqrt(2/d) 1) '
     'in the documented order X-like, Y-like, Z-like, identity, pairs (a<b) in row-major order; coefficients Tr(G_i A)/2',
@@ -50,16 +60,39 @@ ASSUMPTIONS = [
     'docstring promises the value 2 only for the single-factor matrices',
     'dm_to_gellmann_norm is documented for numpy arrays only; it is exercised with torch tensors too but a TypeError there would be '
     'counted as outside the documented domain',
-    'dimensions above the bound, GPU tensors, autograd, integer/float16 inputs and empty batches are outside the explored space',
+    'dimensions above the bound, GPU tensors, autograd, float16 inputs, integer inputs other than 0/1-valued int64, empty batches and '
+    'the empty Bloch vector of d=1 are outside the explored space',
+    'int64 inputs may be processed in the precision the backend promotes integers to (numpy: float64, torch: default dtype float32); '
+    'an int64 torch tensor as coefficient vector is ruled outside the domain (undocumented form, never produced by the library itself): gellmann_basis_to_matrix raises on it in torch while numpy promotes; counted under pending/torch_int_input, not reported',
+    'near the maximally mixed state the Bloch vector and the norm are only required to be accurate to eps * Tr(rho) absolutely (the '
+    'implementation subtracts the trace part, partial sums of size 1); the squared distance is required to be accurate relative to '
+    'its own size. The exactly-cast single-precision inputs have traces that differ by rounding; the resulting squared difference of '
+    'the identity coefficients is computed from the inputs and added to the expected value',
+    'all_gellmann_matrix(1) is rejected by the d>=2 assert (counted); d=1 is explored for the functions that accept it',
 ]
 
 C_SAFETY = 64.0
-EPS = {'c128': 2.220446049250313e-16, 'f64': 2.220446049250313e-16, 'c64': 1.1920929e-07, 'f32': 1.1920929e-07}
-NP_DT = {'c128': np.complex128, 'f64': np.float64, 'c64': np.complex64, 'f32': np.float32}
-REAL_OF = {'c128': 'f64', 'f64': 'f64', 'c64': 'f32', 'f32': 'f32'}
-IS_REAL = {'c128': False, 'f64': True, 'c64': False, 'f32': True}
+EPS = {'c128': 2.220446049250313e-16, 'f64': 2.220446049250313e-16, 'c64': 1.1920929e-07, 'f32': 1.1920929e-07,
+       'i64': 2.220446049250313e-16}
+NP_DT = {'c128': np.complex128, 'f64': np.float64, 'c64': np.complex64, 'f32': np.float32, 'i64': np.int64}
+REAL_OF = {'c128': 'f64', 'f64': 'f64', 'c64': 'f32', 'f32': 'f32', 'i64': 'f64'}
+IS_REAL = {'c128': False, 'f64': True, 'c64': False, 'f32': True, 'i64': True}
 DTYPES = ['c128', 'f64', 'c64', 'f32']
+INT_DTYPE = 'i64'  # integer inputs: 0/1-valued unit alphabets only (exactly representable), own cases
 BACKENDS = ['numpy', 'torch']
+# additions whose oracle fires on the pinned tree and is waiting for a ruling; the oracle stays in the module, the flag
+# turns the finding into a counter `pending/<flag>`
+#   torch_int_input: gellmann_basis_to_matrix raises RuntimeError (scatter dtype mismatch) for an int64 torch tensor while
+#                    the same int64 numpy array is converted (the other five functions accept int64 tensors)
+PENDING = {'torch_int_input'}
+
+
+def tol_dtype(backend, dt):
+    """precision in which an input of dtype dt may legitimately be processed: integer arrays are promoted to float64 by
+    numpy and to the default dtype float32 by torch (true division / multiplication by a python complex)"""
+    if dt == INT_DTYPE:
+        return 'f32' if backend == 'torch' else 'f64'
+    return dt
 
 
 def tol_of(dt, d, scale, steps=1):
@@ -232,6 +265,40 @@ def bloch_alphabet(d, G, rng):
     return labels, np.stack(vecs)
 
 
+BAND_OFFSETS = (1e-9, 1e-7, 1e-5, 1e-3)
+
+
+def band_alphabet(d, real, deep):
+    """density matrices next to the maximally mixed state: 1/d and 1/d +- t G_i, t in BAND_OFFSETS (Bloch length exactly t: the
+    formulas that subtract Tr(rho)^2/d from Tr(rho^2) lose it). Axes: one per coefficient group - first symmetric, first
+    antisymmetric (complex dtypes), first and last diagonal (the last one touches every diagonal entry); every axis for d <= 4
+    in the thorough tier."""
+    P = d * (d - 1) // 2
+    axes = list(range(d * d - 1)) if (deep and d <= 4) else sorted({0, P, 2 * P, 2 * P + d - 2})
+    axes = [i for i in axes if not (real and coef_group(d, i) == 'antisym')]
+    E = np.eye(d, dtype=np.complex128)
+    Gm = ref_gellmann(d)
+    labels, mats = ['1/d'], [E / d]
+    for t in BAND_OFFSETS:
+        for i in axes:
+            for sgn in (1, -1):
+                labels.append('1/d%+d*%g*G%d' % (sgn, t, i))
+                mats.append(E / d + sgn * t * Gm[i])
+    return labels, np.stack(mats)
+
+
+def dm_alphabet_int(d):
+    """0/1-valued density matrices: the computational basis states"""
+    E = np.eye(d, dtype=np.complex128)
+    return ['|%d>' % a for a in range(d)], np.stack([np.outer(E[a], E[a]) for a in range(d)])
+
+
+def bloch_alphabet_int(d):
+    """0/1-valued Bloch coordinates: 0 and the unit vectors (the conversions are affine, positivity is not needed)"""
+    n = d * d - 1
+    return ['0'] + ['e%d' % i for i in range(n)], np.concatenate([np.zeros((1, n)), np.eye(n)])
+
+
 def batchings(n, deep):
     """list of (label, [index arrays]); X[idx] has shape idx.shape + tail. Padding wraps around (elements repeated)."""
     def pad(k):
@@ -242,6 +309,7 @@ def batchings(n, deep):
         ('(n,)', [np.arange(n)]),
         ('(1,)', [np.array([i]) for i in range(n)]),
         ('(2,l)', [pad(2).reshape(2, -1)]),
+        ('(2,1,l)', [pad(2).reshape(2, 1, -1)]),  # batch rank 3 (the implementations flatten with reshape(-1,..) and restore)
     ]
     if deep:
         ret += [
@@ -311,6 +379,11 @@ def call(cfg, site, op, fn, *args, **kw):
     try:
         return True, fn(*args, **kw)
     except Exception as e:  # noqa
+        if cfg.dt == INT_DTYPE and cfg.backend == 'torch' and 'torch_int_input' in PENDING:
+            # the same int64 input as a numpy array is an own case (a failure there is a violation)
+            cfg.out.count('pending/torch_int_input')
+            cfg.out.count('pending/torch_int_input/%s/%s' % (op, type(e).__name__))
+            return False, None
         # smallest configuration in the key: the memory layout if the contiguous one is not affected (cases run C first)
         seen = cfg.out.__dict__.setdefault('_exc_in_C', set())
         if cfg.layout in (None, 'C'):
@@ -391,6 +464,13 @@ def build_cases(tier, seed):
     else:
         tensor_cfg = [(d, 2) for d in range(2, 8)] + [(2, 3), (3, 3), (2, 4)]
     cases = []
+    # d = 1 (accepted by the assert of gellmann_matrix and by the shape asserts of the conversions; all_gellmann_matrix asks d>=2):
+    # the basis is the single normalised identity sqrt(2), the Bloch vector is empty
+    cases.append({'kind': 'd1', 'd': 1})
+    for kind in ('analysis', 'synthesis'):
+        for backend in BACKENDS:
+            for dt in DTYPES:
+                cases.append({'kind': kind, 'd': 1, 'backend': backend, 'dtype': dt, 'G': G, 'deep': deep})
     for d in range(2, dmax + 1):
         cases.append({'kind': 'basis', 'd': d, 'tensor_n': 1})
     for d in range(2, dmax + 1):
@@ -398,6 +478,11 @@ def build_cases(tier, seed):
             for backend in BACKENDS:
                 for dt in DTYPES:
                     cases.append({'kind': kind, 'd': d, 'backend': backend, 'dtype': dt, 'G': G, 'deep': deep})
+    # integer inputs (0/1-valued unit alphabets, no generic atoms): all six functions, both backends
+    for d in range(2, dmax + 1):
+        for kind in ('analysis', 'synthesis', 'dm'):
+            for backend in BACKENDS:
+                cases.append({'kind': kind, 'd': d, 'backend': backend, 'dtype': INT_DTYPE, 'G': 0, 'deep': deep})
     for d, n in sorted(tensor_cfg, key=lambda x: x[0] ** (2 * x[1])):
         cases.append({'kind': 'basis', 'd': d, 'tensor_n': n})
     info = {
@@ -408,6 +493,11 @@ def build_cases(tier, seed):
                                     'dm(complex)': d + d * (d - 1) + 1 + 2 * (d * d - 1) + G, 'bloch': 1 + 2 * (d * d - 1) + G}
                            for d in range(2, dmax + 1)},
         'path_length': 3,
+        'int_dtype_cases': {'dtype': 'int64', 'alphabets': 'E_ab / e_i / |a><a| / 0,e_i (0/1-valued)', 'pending_flags': sorted(PENDING)},
+        'all_gellmann_matrix_argument_forms': ['d=np.int64', 'd=float', 'tensor_n=np.int64', 'with_I=1', 'with_I=0', 'with_I=np.bool_'],
+        'd1': 'gellmann_matrix(0,0,1); analysis/synthesis cases with d=1; dm functions on [[1]] for batch shapes (), (1,), (1,1)',
+        'near_maximally_mixed_band': {'offsets': list(BAND_OFFSETS), 'axes': 'first sym, first antisym, first and last diag (all axes for d<=4 if thorough)',
+                                      'signs': [1, -1], 'pairs': 'all ordered pairs of the band incl. 1/d'},
         'property_quantifier_d': [2, 8],
         'exhaustive': True,
         'note': ('exhaustive within the stated bounds: every basis-alphabet element x batch shape x layout x backend x dtype x d is executed; '
@@ -428,6 +518,8 @@ def run_case(case, out, env):
         run_synthesis(case, out, env)
     elif kind == 'dm':
         run_dm(case, out, env)
+    elif kind == 'd1':
+        run_d1(case, out, env)
     else:
         raise ValueError(kind)
 
@@ -525,7 +617,124 @@ def run_basis(case, out, env):
                     out.violation('basis/all_gellmann_matrix/last_not_identity', 'with_I=True but the last element is not the normalised identity', **det)
             out.trace()
             out.outcome(('all_gellmann_matrix', d, n, with_I, np.round(gram.diagonal().real, 6), core_digest(Gi)), nontrivial=True)
+    # ---- argument coercions: the same basis whatever numeric type spells d / tensor_n / with_I. Every form is called on a
+    # cold cache (a form that only works once the plain call has filled the cache, or that is cached under the key of a
+    # different plain call - 0 == False, 2.0 == 2 - would pass warm) and followed by the plain call (cache poisoned by the form)
+    from mc import core
+    forms = [('d=np.int64', (np.int64(d),), {'tensor_n': n}, True), ('d=float', (float(d),), {'tensor_n': n}, True),
+             ('tensor_n=np.int64', (d,), {'tensor_n': np.int64(n)}, True), ('with_I=1', (d,), {'tensor_n': n, 'with_I': 1}, True),
+             ('with_I=0', (d,), {'tensor_n': n, 'with_I': 0}, False), ('with_I=np.bool_', (d,), {'tensor_n': n, 'with_I': np.bool_(False)}, False)]
+    for name, args, kw, wI in forms:
+        exp = Gr if wI else Gr[:-1]
+        tol = 4 * n * EPS['c128'] * 2 ** (n / 2)
+        try:
+            gm._all_gellmann_matrix_cache.cache_clear()
+        except AttributeError:
+            from mc import seams
+            seams.clear_numqi_caches()
+        out.trans()
+        out.state()
+        try:
+            Gc = np.asarray(gm.all_gellmann_matrix(*args, **kw))
+        except Exception as e:  # noqa
+            if core.is_precondition_assert(e):
+                out.count('rejected_by_precondition')
+                out.count('rejected_by_precondition/coercion/%s' % name)
+                continue
+            out.violation('basis/all_gellmann_matrix/coercion/%s/%s' % (name, type(e).__name__),
+                          'all_gellmann_matrix(%r, %r) raised %s: %s' % (args, kw, type(e).__name__, str(e)[:200]), d=d, tensor_n=n, form=name)
+            continue
+        ok, Gp = call(cfg, 'basis', 'all_gellmann_matrix', gm.all_gellmann_matrix, d, tensor_n=n, with_I=wI)
+        if not ok:
+            continue
+        Gp = np.asarray(Gp)
+        for what, arr in (('coerced_call', Gc), ('plain_call_after_coerced', Gp)):
+            if arr.shape != exp.shape or not (np.abs(arr - exp).max() <= tol):
+                out.violation('basis/all_gellmann_matrix/coercion/%s/%s' % (name, what),
+                              'all_gellmann_matrix%r %r on a cold cache: the %s is not the basis of the plain call (d=%d, tensor_n=%d, with_I=%s): shape %s, expected %s'
+                              % (args, kw, what, d, n, wI, arr.shape, exp.shape), d=d, tensor_n=n, form=name)
+                break
+        else:
+            if Gc.shape != Gp.shape or not np.array_equal(Gc, Gp):
+                out.violation('basis/all_gellmann_matrix/coercion/%s/differs_from_plain' % name,
+                              'all_gellmann_matrix%r %r is not bit-identical to the plain call' % (args, kw), d=d, tensor_n=n, form=name)
+        out.outcome(('coercion', name, d, n, Gc.shape), nontrivial=True)
     out.sample = {'kind': 'basis', 'd': d, 'tensor_n': n, 'elements': int(N), 'gram_entries': int(N * N)}
+
+
+def run_d1(case, out, env):
+    """d = 1: gellmann_matrix(0,0,1) = [[sqrt 2]] (Tr G^2 = 2); the one-dimensional density matrix [[1]] has coefficient
+    1/sqrt 2 on it, an empty Bloch vector, norm 0 and distance 0 to itself. (matrix <-> vector for d = 1: analysis / synthesis
+    cases with d = 1.) gellmann_basis_to_dm of the empty Bloch vector is an empty input (outside the explored space): a
+    result must be [[1]], an exception is counted."""
+    import numqi
+    from mc import core
+    gm = numqi.gellmann
+    cfg = Cfg(out, case, None, None, None)
+    cfg.backend = 'numpy'
+    out.state()
+    ok, m = call(cfg, 'basis', 'gellmann_matrix', gm.gellmann_matrix, 0, 0, 1)
+    if ok:
+        m = np.asarray(m)
+        if m.shape != (1, 1) or not (abs(m[0, 0] - np.sqrt(2.0)) <= 4 * EPS['c128']):
+            out.violation('basis/gellmann_matrix/wrong_element/identity', 'gellmann_matrix(0,0,1) is not [[sqrt 2]]', i=0, j=0, d=1, got=m)
+        out.outcome(('gellmann_matrix', 1, np.round(m, 6)), nontrivial=True)
+    out.state()
+    out.trans()
+    try:
+        Gi = np.asarray(gm.all_gellmann_matrix(1))
+        if Gi.shape != (1, 1, 1) or not (abs(Gi[0, 0, 0] - np.sqrt(2.0)) <= 4 * EPS['c128']):
+            out.violation('basis/all_gellmann_matrix/wrong_element_or_order/identity', 'all_gellmann_matrix(1) is accepted but is not [[[sqrt 2]]]', d=1, got=Gi)
+    except Exception as e:  # noqa
+        if core.is_precondition_assert(e):
+            out.count('rejected_by_precondition')
+            out.count('rejected_by_precondition/all_gellmann_matrix(1)')
+        else:
+            out.violation('basis/all_gellmann_matrix/numpy/%s' % type(e).__name__, 'all_gellmann_matrix(1) raised %s: %s' % (type(e).__name__, str(e)[:200]), d=1)
+    rho = np.ones((1, 1), dtype=np.complex128)
+    for backend in BACKENDS:
+        for dt in DTYPES:
+            tol = tol_of(dt, 1, 1, 1)
+            for bl, idx in (('()', np.array(0)), ('(1,)', np.array([0])), ('(1,1)', np.array([[0]]))):
+                sub = dict(case, backend=backend, dtype=dt)
+                cfg = Cfg(out, sub, bl, 'C', ['|0>'])
+                X = rho[None]
+                out.state()
+                xin, exact = make_input(backend, dt, X[idx], 'C')
+                bshape = tuple(np.shape(idx))
+                ok, b0 = call(cfg, 'dm', 'dm_to_gellmann_basis(with_rho0=True)', gm.dm_to_gellmann_basis, xin, with_rho0=True)
+                if ok:
+                    compare(cfg, 'dm', 'dm_to_gellmann_basis(with_rho0=True)', b0, np.full(bshape + (1,), 1 / np.sqrt(2.0)), tol, idx, X,
+                            grp_coef(1), require_real=True)
+                ok, b1 = call(cfg, 'dm', 'dm_to_gellmann_basis', gm.dm_to_gellmann_basis, xin)
+                if ok and to_np(b1).shape != bshape + (0,):
+                    out.violation('dm/dm_to_gellmann_basis/%s/shape' % backend, 'Bloch vector of the d=1 state has shape %s, documented %s'
+                                  % (to_np(b1).shape, bshape + (0,)), **cfg.detail())
+                ok, nr = call(cfg, 'dm', 'dm_to_gellmann_norm', gm.dm_to_gellmann_norm, xin)
+                if ok:
+                    compare(cfg, 'dm', 'dm_to_gellmann_norm', nr, np.zeros(bshape), tol, idx, X, lambda pos: 'vs_reference', require_backend=False, record=False)
+                if ok and b1 is not None:
+                    out.trans()
+                    try:
+                        r2 = to_np(gm.gellmann_basis_to_dm(b1))
+                        if r2.shape != bshape + (1, 1) or not (np.abs(r2 - 1).max() <= tol):
+                            out.violation('dm/gellmann_basis_to_dm/%s/wrong_value/diagonal' % backend, 'the empty Bloch vector (d=1) is accepted but does not give [[1]]',
+                                          **cfg.detail(got=r2))
+                        out.count('d1_empty_bloch_vector_accepted')
+                    except Exception:  # noqa  (empty array: outside the explored space)
+                        out.count('outside_explored_space/d1_empty_bloch_vector_raises')
+            cfg = Cfg(out, dict(case, backend=backend, dtype=dt), '()', 'C', ['|0>'])
+            xin, _ = make_input(backend, dt, rho, 'C')
+            out.state()
+            ok, v = call(cfg, 'dm', 'get_density_matrix_distance2', gm.get_density_matrix_distance2, xin, xin)
+            if ok:
+                v = to_np(v)
+                if v.shape != () or not np.isfinite(v) or abs(complex(v)) > tol:
+                    out.violation('dm/get_density_matrix_distance2/%s/wrong_value' % backend, 'squared distance of the d=1 state to itself is %s' % (v,),
+                                  **cfg.detail(got=v, expected=0.0))
+                out.outcome(('dist2', 1, 0.0), nontrivial=False)
+    out.trace()
+    out.sample = {'kind': 'd1', 'd': 1}
 
 
 def core_digest(x):
@@ -536,7 +745,7 @@ def core_digest(x):
 # ------------------------------------------------------------------ analysis: matrix -> vector (-> matrix -> vector)
 def linearity_residual(cfg, site, op, fn, X, tail_ndim, dt):
     """f(alpha x1 + beta x2) - alpha f(x1) - beta f(x2) on two generic elements (uses the implementation only)"""
-    if len(X) < 2:
+    if len(X) < 2 or dt == INT_DTYPE:
         return
     x1, x2 = X[-1], X[-2]
     alpha, beta = (0.75, -1.25) if IS_REAL[dt] else (0.75 - 0.5j, -1.25 + 0.375j)
@@ -568,6 +777,7 @@ def run_analysis(case, out, env):
     gm = numqi.gellmann
     d, backend, dt = case['d'], case['backend'], case['dtype']
     real = IS_REAL[dt]
+    tdt = tol_dtype(backend, dt)
     labels, X = matrix_alphabet(d, real, case['G'], env.rng('analysis', d, real))
     Gimpl = None
     try:
@@ -587,15 +797,15 @@ def run_analysis(case, out, env):
                 c_ref = ref_analysis(exact)
                 # step 1: m -> v
                 ok, v1 = call(cfg, 'analysis', 'matrix_to_gellmann_basis', gm.matrix_to_gellmann_basis, xin)
-                if not ok or not compare(cfg, 'analysis', 'matrix_to_gellmann_basis', v1, c_ref, tol_of(dt, d, scale, 1), idx, X, grp_coef(d)):
+                if not ok or not compare(cfg, 'analysis', 'matrix_to_gellmann_basis', v1, c_ref, tol_of(tdt, d, scale, 1), idx, X, grp_coef(d)):
                     continue
                 # the property's literal statement: the coefficient vector reconstructs the matrix as the linear combination
                 # of the basis returned by all_gellmann_matrix
                 if Gimpl is not None:
                     rec = np.einsum('...i,iab->...ab', to_np(v1).astype(np.complex128), Gimpl)
                     e = np.abs(rec - exact)
-                    if e.max() > tol_of(dt, d, scale, 2):
-                        k = int(np.argmax(e.reshape(max(nel, 1), -1).max(axis=1) > tol_of(dt, d, scale, 2)))
+                    if e.max() > tol_of(tdt, d, scale, 2):
+                        k = int(np.argmax(e.reshape(max(nel, 1), -1).max(axis=1) > tol_of(tdt, d, scale, 2)))
                         lab = labels[int(np.asarray(idx).reshape(-1)[k])]
                         out.violation('analysis/matrix_to_gellmann_basis/%s/expansion_mismatch' % backend,
                                       'sum_i c_i G_i with G = all_gellmann_matrix(%d) does not reconstruct element %s: err %.3g' % (d, lab, e.max()),
@@ -603,11 +813,11 @@ def run_analysis(case, out, env):
                         continue
                 # step 2: v -> m (implementation output fed back as is)
                 ok, m2 = call(cfg, 'analysis', 'gellmann_basis_to_matrix', gm.gellmann_basis_to_matrix, v1)
-                if not ok or not compare(cfg, 'analysis', 'gellmann_basis_to_matrix', m2, exact, tol_of(dt, d, scale, 2), idx, X, grp_mat(d)):
+                if not ok or not compare(cfg, 'analysis', 'gellmann_basis_to_matrix', m2, exact, tol_of(tdt, d, scale, 2), idx, X, grp_mat(d)):
                     continue
                 # step 3: m -> v again
                 ok, v3 = call(cfg, 'analysis', 'matrix_to_gellmann_basis', gm.matrix_to_gellmann_basis, m2)
-                if not ok or not compare(cfg, 'analysis', 'matrix_to_gellmann_basis', v3, c_ref, tol_of(dt, d, scale, 3), idx, X, grp_coef(d), record=False):
+                if not ok or not compare(cfg, 'analysis', 'matrix_to_gellmann_basis', v3, c_ref, tol_of(tdt, d, scale, 3), idx, X, grp_coef(d), record=False):
                     continue
                 out.trace(nel)
     cfg = Cfg(out, case, '()', 'C', labels)
@@ -621,6 +831,7 @@ def run_synthesis(case, out, env):
     gm = numqi.gellmann
     d, backend, dt = case['d'], case['backend'], case['dtype']
     real = IS_REAL[dt]
+    tdt = tol_dtype(backend, dt)
     labels, X = vector_alphabet(d, real, case['G'], env.rng('synthesis', d, real))
     for bl, calls in batchings(len(X), case['deep']):
         for lay in layouts(case['deep']):
@@ -632,13 +843,13 @@ def run_synthesis(case, out, env):
                 scale = max(1.0, np.abs(exact).max())
                 m_ref = ref_synthesis(exact)
                 ok, m1 = call(cfg, 'synthesis', 'gellmann_basis_to_matrix', gm.gellmann_basis_to_matrix, xin)
-                if not ok or not compare(cfg, 'synthesis', 'gellmann_basis_to_matrix', m1, m_ref, tol_of(dt, d, scale, 1), idx, X, grp_mat(d)):
+                if not ok or not compare(cfg, 'synthesis', 'gellmann_basis_to_matrix', m1, m_ref, tol_of(tdt, d, scale, 1), idx, X, grp_mat(d)):
                     continue
                 ok, v2 = call(cfg, 'synthesis', 'matrix_to_gellmann_basis', gm.matrix_to_gellmann_basis, m1)
-                if not ok or not compare(cfg, 'synthesis', 'matrix_to_gellmann_basis', v2, exact, tol_of(dt, d, scale, 2), idx, X, grp_coef(d)):
+                if not ok or not compare(cfg, 'synthesis', 'matrix_to_gellmann_basis', v2, exact, tol_of(tdt, d, scale, 2), idx, X, grp_coef(d)):
                     continue
                 ok, m3 = call(cfg, 'synthesis', 'gellmann_basis_to_matrix', gm.gellmann_basis_to_matrix, v2)
-                if not ok or not compare(cfg, 'synthesis', 'gellmann_basis_to_matrix', m3, m_ref, tol_of(dt, d, scale, 3), idx, X, grp_mat(d), record=False):
+                if not ok or not compare(cfg, 'synthesis', 'gellmann_basis_to_matrix', m3, m_ref, tol_of(tdt, d, scale, 3), idx, X, grp_mat(d), record=False):
                     continue
                 out.trace(nel)
     cfg = Cfg(out, case, '()', 'C', labels)
@@ -652,7 +863,11 @@ def run_dm(case, out, env):
     gm = numqi.gellmann
     d, backend, dt = case['d'], case['backend'], case['dtype']
     real = IS_REAL[dt]
-    labels, X = dm_alphabet(d, real, case['G'], env.rng('dm', d, real))
+    tdt = tol_dtype(backend, dt)
+    if dt == INT_DTYPE:
+        labels, X = dm_alphabet_int(d)
+    else:
+        labels, X = dm_alphabet(d, real, case['G'], env.rng('dm', d, real))
     n = d * d - 1
     for bl, calls in batchings(len(X), case['deep']):
         for lay in layouts(case['deep']):
@@ -663,7 +878,7 @@ def run_dm(case, out, env):
                 xin, exact = make_input(backend, dt, X[idx], lay)
                 c_ref = ref_analysis(exact).real  # (..., d*d) ; the last coefficient is Tr(rho)/sqrt(2d)
                 b_ref = c_ref[..., :-1]
-                t1 = tol_of(dt, d, 1, 1)
+                t1 = tol_of(tdt, d, 1, 1)
                 # rho -> Bloch vector
                 ok, b1 = call(cfg, 'dm', 'dm_to_gellmann_basis', gm.dm_to_gellmann_basis, xin)
                 if not ok or not compare(cfg, 'dm', 'dm_to_gellmann_basis', b1, b_ref, t1, idx, X, grp_coef(d), require_real=True):
@@ -681,17 +896,17 @@ def run_dm(case, out, env):
                         compare(cfg, 'dm', 'dm_to_gellmann_norm', nr, nimpl, 2 * t1, idx, X, lambda pos: 'vs_own_bloch_vector', require_backend=False, record=False)
                 # Bloch vector -> rho (implementation's own vector fed back) : trace one, Hermitian, equals rho
                 ok, r2 = call(cfg, 'dm', 'gellmann_basis_to_dm', gm.gellmann_basis_to_dm, b1)
-                if not ok or not compare(cfg, 'dm', 'gellmann_basis_to_dm', r2, exact, tol_of(dt, d, 1, 2), idx, X, grp_mat(d)):
+                if not ok or not compare(cfg, 'dm', 'gellmann_basis_to_dm', r2, exact, tol_of(tdt, d, 1, 2), idx, X, grp_mat(d)):
                     continue
                 ok, b3 = call(cfg, 'dm', 'dm_to_gellmann_basis', gm.dm_to_gellmann_basis, r2)
-                if not ok or not compare(cfg, 'dm', 'dm_to_gellmann_basis', b3, b_ref, tol_of(dt, d, 1, 3), idx, X, grp_coef(d), require_real=True, record=False):
+                if not ok or not compare(cfg, 'dm', 'dm_to_gellmann_basis', b3, b_ref, tol_of(tdt, d, 1, 3), idx, X, grp_coef(d), require_real=True, record=False):
                     continue
                 out.trace(nel)
     # ---- squared distance on all ordered pairs (documented: no batch support)
     cfg = Cfg(out, case, '()', 'C', labels)
     ins = [make_input(backend, dt, X[i], 'C') for i in range(len(X))]
     bl_ref = [ref_analysis(e).real[:-1] for _, e in ins]
-    t1 = tol_of(dt, d, 1, 1)
+    t1 = tol_of(tdt, d, 1, 1)
     nbad = 0
     for i, j in itertools.product(range(len(X)), repeat=2):
         out.state()
@@ -711,9 +926,66 @@ def run_dm(case, out, env):
             if nbad > 5:
                 break
         out.outcome(('dist2', d, round(float(np.real(v)), 4) if v.shape == () else None), nontrivial=i != j)
+    # ---- band next to the maximally mixed state: Bloch vector, norm, and squared distance on all ordered pairs
+    if dt != INT_DTYPE:
+        blabels, B = band_alphabet(d, real, case['deep'])
+        for bl, calls in (('(n,)', [np.arange(len(B))]), ('()', [np.array(i) for i in range(len(B))])):
+            cfg = Cfg(out, case, bl, 'C', blabels)
+            for idx in calls:
+                out.state(int(np.size(idx)))
+                xin, exact = make_input(backend, dt, B[idx], 'C')
+                b_ref = ref_analysis(exact).real[..., :-1]
+                # absolute tolerance: the trace (partial sums up to Tr rho = 1) is subtracted, so the error is eps * 1, not eps * t
+                t1 = tol_of(tdt, d, 1, 1)
+                ok, b1 = call(cfg, 'dm', 'dm_to_gellmann_basis', gm.dm_to_gellmann_basis, xin)
+                if ok:
+                    compare(cfg, 'dm', 'dm_to_gellmann_basis', b1, b_ref, t1, idx, B, lambda pos: 'near_maximally_mixed/' + coef_group(d, pos), require_real=True)
+                ok, nr = call(cfg, 'dm', 'dm_to_gellmann_norm', gm.dm_to_gellmann_norm, xin)
+                if ok:
+                    compare(cfg, 'dm', 'dm_to_gellmann_norm', nr, np.linalg.norm(b_ref, axis=-1), t1, idx, B, lambda pos: 'near_maximally_mixed',
+                            require_backend=False, record=False)
+        cfg = Cfg(out, case, '()', 'C', blabels)
+        ins = [make_input(backend, dt, B[i], 'C') for i in range(len(B))]
+        nbad = 0
+        for i, j in itertools.product(range(len(B)), repeat=2):
+            out.state()
+            ok, v = call(cfg, 'dm', 'get_density_matrix_distance2', gm.get_density_matrix_distance2, ins[i][0], ins[j][0])
+            if not ok:
+                nbad += 1
+                if nbad > 5:
+                    break
+                continue
+            v = to_np(v)
+            # reference: Bloch vector of the difference (the reference analysis is linear; the difference of the two exactly-cast
+            # inputs is formed in complex128, where it is exact or correctly rounded). Tolerance RELATIVE to the squared Bloch
+            # distance: rho - sigma is one correctly rounded subtraction per entry (relative eps/2), followed by a sum of 2 d^2
+            # squares (gamma_{2d^2}): relative error <= (2 d^2 + 2) eps <= C (d+2) eps for d <= 30. No absolute floor: all
+            # squares are >= 1e-18 * eps^0, far above the underflow threshold of float32.
+            # The exactly-cast inputs are density matrices up to the rounding of the cast: their traces differ by up to d*eps, which
+            # is not small against t in single precision. The squared difference of the identity coefficients (Tr rho - Tr sigma)^2/(2d)
+            # is a known property of the INPUT (zero for trace-one matrices) and part of the documented 'Frobenius distance over 2';
+            # it is added to the expected value, not to the tolerance.
+            cdiff = ref_analysis(ins[i][1] - ins[j][1]).real
+            expd = float(np.sum(cdiff[:-1] ** 2) + cdiff[-1] ** 2)
+            if cdiff[-1] ** 2 > 1e-3 * np.sum(cdiff[:-1] ** 2) and i != j:
+                out.count('band_pairs_with_cast_trace_defect')
+            tolr = C_SAFETY * EPS[tdt] * (d + 2) * expd
+            if v.shape != () or not np.isfinite(v) or not (abs(complex(v) - expd) <= tolr):
+                out.violation('dm/get_density_matrix_distance2/%s/wrong_value/near_maximally_mixed' % backend,
+                              'squared distance of %s and %s is %s, squared Euclidean distance of the Bloch vectors is %.12g (relative tolerance %.3g)'
+                              % (blabels[i], blabels[j], v, expd, C_SAFETY * EPS[tdt] * (d + 2)),
+                              **cfg.detail(rho=B[i], sigma=B[j], got=v, expected=expd, tol=tolr))
+                nbad += 1
+                if nbad > 5:
+                    break
+            out.outcome(('dist2band', d, blabels[i], blabels[j], v.shape == () and bool(v > 0)), nontrivial=i != j)
+        out.count('band_elements', len(B))
     # ---- Bloch-vector alphabet: b -> rho -> b -> rho   (real input dtypes; the vector is real by definition)
     if real:
-        vlabels, V = bloch_alphabet(d, case['G'], env.rng('bloch', d))
+        if dt == INT_DTYPE:
+            vlabels, V = bloch_alphabet_int(d)
+        else:
+            vlabels, V = bloch_alphabet(d, case['G'], env.rng('bloch', d))
         E = np.eye(d) / d
         for bl, calls in batchings(len(V), case['deep']):
             for lay in layouts(case['deep']):
@@ -724,18 +996,18 @@ def run_dm(case, out, env):
                     xin, exact = make_input(backend, dt, V[idx], lay)
                     r_ref = E + np.einsum('...i,iab->...ab', exact, ref_gellmann(d)[:-1])
                     ok, r1 = call(cfg, 'bloch', 'gellmann_basis_to_dm', gm.gellmann_basis_to_dm, xin)
-                    if not ok or not compare(cfg, 'bloch', 'gellmann_basis_to_dm', r1, r_ref, tol_of(dt, d, 1, 1), idx, V, grp_mat(d)):
+                    if not ok or not compare(cfg, 'bloch', 'gellmann_basis_to_dm', r1, r_ref, tol_of(tdt, d, 1, 1), idx, V, grp_mat(d)):
                         continue
                     r1n = to_np(r1).astype(np.complex128)
                     tr = np.trace(r1n, axis1=-2, axis2=-1)
-                    if np.abs(tr - 1).max() > tol_of(dt, d, 1, 1):
+                    if np.abs(tr - 1).max() > tol_of(tdt, d, 1, 1):
                         out.violation('bloch/gellmann_basis_to_dm/%s/not_trace_one' % backend, 'gellmann_basis_to_dm returned trace %s' % (tr.reshape(-1)[0],),
                                       **cfg.detail(input=V[int(np.asarray(idx).reshape(-1)[0])]))
                     ok, b2 = call(cfg, 'bloch', 'dm_to_gellmann_basis', gm.dm_to_gellmann_basis, r1)
-                    if not ok or not compare(cfg, 'bloch', 'dm_to_gellmann_basis', b2, exact.real, tol_of(dt, d, 1, 2), idx, V, grp_coef(d), require_real=True):
+                    if not ok or not compare(cfg, 'bloch', 'dm_to_gellmann_basis', b2, exact.real, tol_of(tdt, d, 1, 2), idx, V, grp_coef(d), require_real=True):
                         continue
                     ok, r3 = call(cfg, 'bloch', 'gellmann_basis_to_dm', gm.gellmann_basis_to_dm, b2)
-                    if not ok or not compare(cfg, 'bloch', 'gellmann_basis_to_dm', r3, r_ref, tol_of(dt, d, 1, 3), idx, V, grp_mat(d), record=False):
+                    if not ok or not compare(cfg, 'bloch', 'gellmann_basis_to_dm', r3, r_ref, tol_of(tdt, d, 1, 3), idx, V, grp_mat(d), record=False):
                         continue
                     out.trace(nel)
     out.sample = {'kind': 'dm', 'd': d, 'backend': backend, 'dtype': dt, 'alphabet': labels[:2] + ['...'] + labels[-2:], 'alphabet_size': len(labels),
